@@ -176,7 +176,7 @@ pub fn run(ctx: &Ctx) -> i32 {
                 any = true;
                 let opfam = o.name.split('[').next().unwrap().split('<').next().unwrap().to_string();
                 acc.outcome(format!("panic:{}@{}", opfam, p.loc));
-                acc.viol(format!("C16|at={}|{}", p.loc, p.class()), format!("{} panicked: {}", o.name, p.msg.chars().take(160).collect::<String>()), format!("env{ei}:{name}/op:{}", o.name),
+                acc.viol(format!("C16|at={}|{}{}", p.site, p.class(), if p.detail().is_empty() { String::new() } else { format!(":{}", p.detail()) }), format!("{} panicked at {}: {}", o.name, p.loc, p.msg.chars().take(160).collect::<String>()), format!("env{ei}:{name}/op:{}", o.name),
                     json!({"operation": o.name, "envelope": hex::encode(e.to_cbor_data()), "notation": e.format_flat().chars().take(200).collect::<String>(), "panic_site": p.loc, "message": p.msg}));
             }
         }
@@ -192,7 +192,7 @@ pub fn run(ctx: &Ctx) -> i32 {
     let b = Envelope::new("x");
     for (n, r) in [("add_signature(ssh key, no options)", catch(|| { b.add_signature(&sshid.sk); })), ("sign(ssh key, no options)", catch(|| { b.sign(&sshid.sk); })), ("seal(ssh key, no options)", catch(|| { b.seal(&sshid.sk, &xpub); }))] {
         acc.inc("calls");
-        if let Err(p) = r { acc.viol(format!("C16|at={}|{}", p.loc, p.class()), format!("{n} panicked: {}", p.msg), format!("builder/{n}"), json!({"operation": n, "panic_site": p.loc})) }
+        if let Err(p) = r { acc.viol(format!("C16|at={}|{}{}", p.site, p.class(), if p.detail().is_empty() { String::new() } else { format!(":{}", p.detail()) }), format!("{n} panicked at {}: {}", p.loc, p.msg), format!("builder/{n}"), json!({"operation": n, "panic_site": p.loc})) }
     }
     let evals = acc.get("calls");
     let cov = json!({"evaluations": evals,
